@@ -3,6 +3,8 @@ From Coq Require Import String Ascii ZArith List Bool.
 From Coq Require Extraction.
 From Coq Require Import ExtrOcamlBasic ExtrOcamlString.
 From HV Require Import Model.SetOps Gen.GenInvFilters Model.FrontierModel.
+From HV Require Import Spec.StateIdSpec Model.StateIdModel Gen.GenStorageDigest Gen.GenStateId.
+From HV Require Import Model.PathSliceModel Gen.GenPathSlice.
 Import ListNotations.
 Open Scope Z_scope.
 
@@ -100,10 +102,79 @@ Definition c15_frontier (a : list Z) : list Z :=
   let pr := probes TableInst.St nat (TableInst.targets tb) (TableInst.sstep tb) TableInst.sid TableInst.refresh (su, si) (Z.to_nat d) in
   flat_map (fun f => Z.of_nat (length f) :: map fst f) fr ++ (Z.of_nat (length pr) :: pr).
 
+(* state identity: the regenerated snapshot_state / StorageData.digest with the identity as the
+   (collision-free) hash, on the components recorded from the real Execs *)
+Fixpoint parse_pairs (n : nat) (l : list Z) : list (Z * Z) * list Z :=
+  match n with
+  | O => ([], l)
+  | S k => let '(a, l) := pop1 l in let '(b, l) := pop1 l in
+           let '(r, l) := parse_pairs k l in ((a, b) :: r, l)
+  end.
+(* item: kind (0 int key / 1 tuple key); key (one word / length-prefixed words); value id *)
+Fixpoint parse_items (n : nat) (l : list Z) : xstorage * list Z :=
+  match n with
+  | O => ([], l)
+  | S k => let '(kind, l) := pop1 l in
+           let '(key, l) := (if kind =? 0 then let '(z, l) := pop1 l in (KInt z, l)
+                             else let '(ws, l) := poplist l in (KTup ws, l)) in
+           let '(v, l) := pop1 l in
+           let '(r, l) := parse_items k l in ((key, v) :: r, l)
+  end.
+Fixpoint parse_accounts (n : nat) (l : list Z) : list (Z * xstorage) * list Z :=
+  match n with
+  | O => ([], l)
+  | S k => let '(a, l) := pop1 l in
+           let '(ni, l) := pop1 l in
+           let '(st, l) := parse_items (Z.to_nat ni) l in
+           let '(r, l) := parse_accounts k l in ((a, st) :: r, l)
+  end.
+(* state: balance; ncode; (addr; code)*; naccounts; accounts; conds (length-prefixed); sliced flag; slice (length-prefixed) *)
+Definition parse_xstate (l : list Z) : xstate * list Z :=
+  let '(bal, l) := pop1 l in
+  let '(nc, l) := pop1 l in
+  let '(code, l) := parse_pairs (Z.to_nat nc) l in
+  let '(na, l) := pop1 l in
+  let '(stor, l) := parse_accounts (Z.to_nat na) l in
+  let '(conds, l) := poplist l in
+  let '(flag, l) := pop1 l in
+  let '(sl, l) := poplist l in
+  (mkX bal code stor conds (if flag =? 0 then None else Some sl), l).
+Fixpoint parse_xstates (n : nat) (l : list Z) : list xstate :=
+  match n with
+  | O => []
+  | S k => let '(x, l) := parse_xstate l in x :: parse_xstates k l
+  end.
+
+Definition ideal_id (ex : xstate) : option (list (list (item (list Z)))) :=
+  snapshot_state (fun x => x) (storage_digest (fun x => x)) true ex.
+Definition ideal_id_eqb := opt_eqb (list_eqb (list_eqb (item_eqb (list_eqb Z.eqb)))).
+
+(* [n; states...] -> for each state: -1 if get_state_id raises, else the position of the first
+   state with the same id *)
+Definition c15_state_classes (a : list Z) : list Z :=
+  let '(n, l) := pop1 a in
+  let ids := map ideal_id (parse_xstates (Z.to_nat n) l) in
+  map (fun p => match fst p with None => -1 | Some _ => snd p end) (combine ids (class_ids ideal_id_eqb ids)).
+
+(* the slice: [nconds; (nvars; vars...)*; nstate; state vars...] -> positions of the sliced conditions *)
+Fixpoint parse_lists (n : nat) (l : list Z) : list (list Z) * list Z :=
+  match n with
+  | O => ([], l)
+  | S k => let '(x, l) := poplist l in
+           let '(r, l) := parse_lists k l in (x :: r, l)
+  end.
+Definition c15_slice (a : list Z) : list Z :=
+  let '(n, l) := pop1 a in
+  let '(vs, l) := parse_lists (Z.to_nat n) l in
+  let '(sv, l) := poplist l in
+  map Z.of_nat (p_slice (p_build vs) sv).
+
 Definition table : list (string * (list Z -> list Z)) :=
   [ ("c15_resolve_contracts"%string, c15_resolve_contracts);
     ("c15_sender_allowed"%string, c15_sender_allowed);
     ("c15_resolve_selectors"%string, c15_resolve_selectors);
-    ("c15_frontier"%string, c15_frontier) ].
+    ("c15_frontier"%string, c15_frontier);
+    ("c15_state_classes"%string, c15_state_classes);
+    ("c15_slice"%string, c15_slice) ].
 
 Extraction "_build/C15/entries.ml" table.
